@@ -31,11 +31,11 @@ fn wire(s: ServingStatus) -> i32 {
 
 pub fn run(cfg: &RunCfg) -> Ctx {
     let mut all = Ctx::new();
-    all.merge(par_cases(cfg, "sequential", cfg.n(10_000, 16 * 25_000), || (), |_, rng, ctx, _| sequential(rng, ctx)));
+    all.merge(par_cases(cfg, "sequential", cfg.n(10_000, 16 * 400_000), || (), |_, rng, ctx, _| sequential(rng, ctx)));
     // the concurrent monitor owns a multi-thread runtime per history: run histories sequentially
     let mut c = cfg.clone();
     c.threads = 2;
-    all.merge(par_cases(&c, "concurrent", cfg.n(400, 3000), || (), |_, rng, ctx, _| concurrent(rng, ctx)));
+    all.merge(par_cases(&c, "concurrent", cfg.n(400, 15_000), || (), |_, rng, ctx, _| concurrent(rng, ctx)));
     for k in ["seq.check_found", "seq.check_not_found", "seq.watch_not_found", "seq.watch_items", "seq.stream_ended_by_clear", "seq.coalesced_updates", "seq.redundant_set_then_change", "seq.set_then_clear_unpolled", "conc.histories_linearizable", "conc.watch_items"] {
         all.floor(k, 5);
     }
